@@ -211,3 +211,29 @@ Example ex_roles : flattened_roles std_entity = [0; 1]
   /\ NoDup (map (role_key std_entity) (flattened_roles std_entity))
   /\ decode_role std_entity "0"%string = no_role std_entity.
 Proof. vm_compute. repeat split. repeat constructor; cbn; intuition discriminate. Qed.
+
+(** the hypothesis [Top] of restored_calculates_meaning is inhabited by a state that holds
+    a computed value, and the restored holders may be another LIST than the original's
+    (same finite map): this is why the statements speak of lookups *)
+Definition ex_inp : inputs :=
+  [((0, march), [10; 20; 30]%Z); ((1, eternity_period), [1; 0; 1]%Z)].
+Example ex_top_state :
+  Top ex_sys (pop_of ex_og ex_u0) ex_inp
+      (fst (Engine.run (enough_fuel ex_sys) ex_sys (pop_of ex_og ex_u0) (init ex_inp) [RCalc 2 march])).
+Proof.
+  apply run_refines_meaning; [reflexivity|apply le_n|reflexivity|apply Top_init].
+Qed.
+Definition april : period := (Month, (2018, 4, 1)%Z, 1%Z).
+Definition ex_u2 : simu :=
+  with_st ex_u0 (fst (Engine.run (enough_fuel ex_sys) ex_sys (pop_of ex_og ex_u0) (init [])
+                        [RSetInput 0 march [1; 2; 3]%Z; RSetInput 0 april [4; 5; 6]%Z])).
+Example ex_order_differs :
+  match dump_simulation show_enc ex_sys ex_og ex_u2 [] with
+  | Ok f => match restore_simulation parse_enc ex_sys ex_og f with
+            | Ok u' => map fst (cache (u_st ex_u2)) = [(0, april); (0, march)]
+                       /\ map fst (cache (u_st u')) = [(0, march); (0, april)]
+            | Err _ => False
+            end
+  | Err _ => False
+  end.
+Proof. vm_compute. split; reflexivity. Qed.
